@@ -774,6 +774,18 @@ class Exec:
                 self.hooks_fired[ast.unparse(node)] = self.hooks_fired.get(ast.unparse(node), 0) + 1; hook(self, s)
             yield s, ctl
 
+    def st_Delete(self, node, st):
+        for tgt in node.targets:
+            if not isinstance(tgt, ast.Subscript): raise Unsupported("del of a non-subscript")
+            res = list(self.ev_seq([tgt.value, tgt.slice], st))
+            if len(res) != 1 or isinstance(res[0][1], Raise): raise Unsupported("del with a forking / raising target")
+            base, idx = res[0][1]
+            if isinstance(base, (list, dict)) and not isinstance(idx, Sym):
+                try: del base[idx]
+                except (IndexError, KeyError) as e:
+                    yield st, ("raise", self.new_builtin_exc(st, type(e).__name__, [str(e)])); return
+            else: raise Unsupported("del on a symbolic container")
+        yield st, ("next",)
     def st_Pass(self, node, st): yield st, ("next",)
     def st_Break(self, node, st): yield st, ("break",)
     def st_Continue(self, node, st): yield st, ("continue",)
